@@ -81,7 +81,13 @@ def exec_case(case):
     elsewhere = os.path.join(base, "elsewhere")
     os.makedirs(elsewhere)
     runner.write_tree(root, case["files"])
-    srcs = sorted(f for f in case["files"] if not f.startswith("."))
+    # a source file that is a symlink to a file OUTSIDE the project root (shared between checkouts): still a file of the project, under its project path
+    shared = os.path.join(parent, "shared_out")
+    os.makedirs(shared)
+    with open(os.path.join(shared, "rates.py"), "w", encoding="utf-8") as fh:
+        fh.write("def linked_rate(a):\n    print(a)\n    return a * 6543\n")
+    os.symlink(os.path.join("..", "..", "shared_out", "rates.py"), os.path.join(root, "src", "linked_rates.py"))
+    srcs = sorted([f for f in case["files"] if not f.startswith(".")] + ["src/linked_rates.py"])
     out = {}
     for sp_full in case["spellings"]:
         pre = []
